@@ -710,7 +710,7 @@ func c36RunLayout(env *c36Env, caseNo int) error {
 
 func TestVerifC36(t *testing.T) {
 	r := verifkit.Start(t, "C36", "sql")
-	defer r.Finish("per PRNG layout (1-3 partitions x 1-6 segments in the broker's segment format on a loopback S3, decoy topics, in-flight/orphan/truncated segments, time-index side-cars built by the repo's TimeIndexBuilder and kept for a subset, optional manifest built by the repo's ManifestBuilder, discovery/result caches on or off) the real server.Server with the real discovery.New lister and decoder.New decoder answers generated single-topic SELECTs over pgproto3; every answer is compared with the direct filtering of the generated record list: returned rows are matching records of completed segments, once each, with the record's own cell values; the set is exact when nothing cuts it, has min(n,|M|) rows under LIMIT, is ts-monotone with the right ts multiset under ORDER BY _ts, and is the partition-wise last rows under TAIL; count(*) equals |M|. The S3 request log tells which segments each query read (non-trivial = rows returned, a proper subset matched, and at least one segment was left unread).",
+	defer r.Finish("per PRNG layout (1-3 partitions x 1-6 segments in the broker's segment format on a loopback S3, decoy topics, in-flight/orphan/truncated segments, time-index side-cars built by the repo's TimeIndexBuilder and kept for a subset, optional manifest built by the repo's ManifestBuilder, discovery/result caches on or off) the real server.Server with the real discovery.New lister and decoder.New decoder answers generated single-topic SELECTs over pgproto3 (simple and extended protocol; in uncached layouts more segments arrive and in-flight ones complete half-way through); every answer is compared with the direct filtering of the generated record list: returned rows are matching records of completed segments, once each, with the record's own cell values; the set is exact when nothing cuts it, has min(n,|M|) rows under LIMIT, is ts-monotone with the right ts multiset under ORDER BY _ts, and is the partition-wise last rows under TAIL; count(*) equals |M|. The S3 request log tells which segments each query read (non-trivial = rows returned, a proper subset matched, and at least one segment was left unread).",
 		"records carry timestamps 2001..2014 and the machine clock is later than that (only used by the rare LAST 1s / LAST 36500d queries, whose expected result does not depend on the clock otherwise)",
 		"completed segment = .kfs and .index objects both present and the .kfs ends in the END! trailer (the broker uploads .kfs then .index)",
 		"topic names are lower case (the SQL front end folds identifiers to lower case like PostgreSQL)",
@@ -736,7 +736,7 @@ func TestVerifC36(t *testing.T) {
 	defer s3.Close()
 	scratch := t.TempDir()
 	env := &c36Env{s3: s3, r: r, scratch: scratch, queries: r.N(14, 30)}
-	layouts := r.N(28, 150)
+	layouts := r.N(28, 200)
 	r.Floor("queries_that_skipped_with_time_filter", int64(r.N(10, 100)))
 	r.Floor("queries_that_skipped_with_offset_filter", int64(r.N(10, 100)))
 	r.Floor("rows_checked", int64(r.N(500, 5000)))
